@@ -344,7 +344,32 @@ fn emit_exec(w: &mut CaseWriter, c: &ExecCase, root: &PathBuf, seq: &mut u64, st
 /// SELECT sel FROM tabs[0] j1 tabs[1] ON on1 j2 tabs[2] ON on2 .. WHERE whr.  Column references are
 /// positional over the concatenation of the tables' columns (ON of join k sees tables 0..=k).
 #[derive(Clone, Debug, PartialEq)]
-struct Query { tabs: Vec<Table>, joins: Vec<(Jt, Option<Expr>)>, whr: Option<Expr>, sel: Option<Vec<usize>>, qual: bool }
+struct Query { tabs: Vec<Table>, joins: Vec<(Jt, Option<Expr>)>, whr: Option<Expr>, sel: Option<Vec<usize>>, qual: bool, idx: Vec<Idx> }
+
+/// a secondary index: (table number, UNIQUE?, columns of that table)
+type Idx = (usize, bool, Vec<usize>);
+fn idx_sql(n: usize, x: &Idx) -> String {
+    let cols: Vec<String> = x.2.iter().map(|j| tcol(x.0, *j)).collect();
+    format!("CREATE {}INDEX ix{}_{} ON {} ({})", if x.1 { "UNIQUE " } else { "" }, x.0, n, TNAMES[x.0], cols.join(", "))
+}
+fn idxs_line(v: &[Idx]) -> String {
+    if v.is_empty() { return "-".into(); }
+    v.iter().map(|x| format!("{}{}{}", x.0, if x.1 { 'u' } else { 'n' }, x.2.iter().map(|c| c.to_string()).collect::<Vec<_>>().join("."))).collect::<Vec<_>>().join(";")
+}
+fn parse_idxs(s: &str) -> Option<Vec<Idx>> {
+    if s == "-" { return Some(vec![]); }
+    let mut out = vec![];
+    for x in s.split(';') {
+        let t: usize = x.get(0..1)?.parse().ok()?;
+        let u = match x.get(1..2)? { "u" => true, "n" => false, _ => return None };
+        let cols: Option<Vec<usize>> = x.get(2..)?.split('.').map(|c| c.parse().ok()).collect();
+        out.push((t, u, cols?));
+    }
+    Some(out)
+}
+fn idx_coq(v: &[Idx]) -> String {
+    format!("[{}]", v.iter().map(|x| format!("({}%nat, {}, {})", x.0, cbool(x.1), coq_nats(&x.2))).collect::<Vec<_>>().join("; "))
+}
 
 const TNAMES: [&str; 4] = ["ta", "tb", "tc", "td"];
 fn tcol(t: usize, j: usize) -> String { format!("{}{}", (b'a' + t as u8) as char, j) }
@@ -395,8 +420,9 @@ impl Query {
     fn line(&self) -> String {
         let t: Vec<String> = self.tabs.iter().map(table_line).collect();
         let j: Vec<String> = self.joins.iter().map(|(jt, on)| format!("{} {}", jt.ch(), on.as_ref().map(|e| e.to_line()).unwrap_or("-".into()))).collect();
-        format!("sql | t={} | j={} | w={} | s={} | q={}", t.join("&"), j.join(";"), self.whr.as_ref().map(|e| e.to_line()).unwrap_or("-".into()),
-                match &self.sel { None => "*".to_string(), Some(s) => idx_line(s) }, self.qual as u8)
+        let base = format!("sql | t={} | j={} | w={} | s={} | q={}", t.join("&"), j.join(";"), self.whr.as_ref().map(|e| e.to_line()).unwrap_or("-".into()),
+                match &self.sel { None => "*".to_string(), Some(s) => idx_line(s) }, self.qual as u8);
+        if self.idx.is_empty() { base } else { format!("{} | x={}", base, idxs_line(&self.idx)) }
     }
     fn parse(l: &str) -> Option<Query> {
         let l = l.split(" #").next().unwrap_or(l).trim();
@@ -407,6 +433,7 @@ impl Query {
         let w = it.next()?.strip_prefix("w=")?;
         let s = it.next()?.strip_prefix("s=")?;
         let q = it.next()?.strip_prefix("q=")?;
+        let idx = match it.next() { Some(x) => parse_idxs(x.strip_prefix("x=")?)?, None => vec![] };
         let tabs: Option<Vec<Table>> = t.split('&').enumerate().map(|(k, x)| parse_table(k, x)).collect();
         let tabs = tabs?;
         let mut joins = vec![];
@@ -416,7 +443,7 @@ impl Query {
             joins.push((jt, if e == "-" { None } else { Some(Expr::from_line(e)?) }));
         }
         if joins.len() + 1 != tabs.len() || tabs.len() > 4 { return None; }
-        Some(Query { tabs, joins, whr: if w == "-" { None } else { Some(Expr::from_line(w)?) }, sel: if s == "*" { None } else { Some(parse_idx(s)?) }, qual: q == "1" })
+        Some(Query { tabs, joins, whr: if w == "-" { None } else { Some(Expr::from_line(w)?) }, sel: if s == "*" { None } else { Some(parse_idx(s)?) }, qual: q == "1", idx })
     }
     fn coq(&self) -> String {
         let t: Vec<String> = self.tabs.iter().map(|t| format!("({}%nat, {})", t.cols.len(), t.to_coq())).collect();
@@ -465,7 +492,7 @@ fn query_spec(q: &Query) -> Option<Rows> {
     Some(out)
 }
 
-struct Sut { db: Option<Database>, dir: PathBuf, seq: u64, loaded: Option<Vec<Table>> }
+struct Sut { db: Option<Database>, dir: PathBuf, seq: u64, loaded: Option<(Vec<Table>, Vec<Idx>)> }
 
 fn same_value(v: &Val, o: &OwnedValue) -> bool {
     match (v, o) {
@@ -494,7 +521,9 @@ impl Sut {
             let db = Database::create(&path).map_err(|e| format!("create: {:#}", e))?;
             for k in 0..q2.tabs.len() {
                 db.execute(&q2.create_sql(k)).map_err(|e| format!("ddl: {:#}", e))?;
+                for (n, x) in q2.idx.iter().enumerate() { if x.0 == k && n % 2 == 0 { db.execute(&idx_sql(n, x)).map_err(|e| format!("index: {:#}", e))?; } }
                 for r in 0..q2.tabs[k].rows.len() { db.execute(&q2.insert_sql(k, r)).map_err(|e| format!("insert: {:#}", e))?; }
+                for (n, x) in q2.idx.iter().enumerate() { if x.0 == k && n % 2 == 1 { db.execute(&idx_sql(n, x)).map_err(|e| format!("index: {:#}", e))?; } }
                 let back = db.query(&format!("SELECT * FROM {}", TNAMES[k])).map_err(|e| format!("readback: {:#}", e))?;
                 if back.len() != q2.tabs[k].rows.len() { return Err(format!("readback: {} rows, expected {}", back.len(), q2.tabs[k].rows.len())); }
                 for (row, got) in q2.tabs[k].rows.iter().zip(back.iter()) {
@@ -506,13 +535,13 @@ impl Sut {
             Ok(db)
         }));
         match res {
-            Caught::Done(Ok(db)) => { self.db = Some(db); self.loaded = Some(q.tabs.clone()); Ok(()) }
+            Caught::Done(Ok(db)) => { self.db = Some(db); self.loaded = Some((q.tabs.clone(), q.idx.clone())); Ok(()) }
             Caught::Done(Err(e)) => Err(e),
             Caught::Panicked(m) => Err(format!("panic during setup: {}", m)),
         }
     }
     fn ensure(&mut self, q: &Query) -> Result<(), String> {
-        if self.db.is_some() && self.loaded.as_ref() == Some(&q.tabs) { Ok(()) } else { self.load(q) }
+        if self.db.is_some() && self.loaded.as_ref().map(|l| l.0 == q.tabs && l.1 == q.idx).unwrap_or(false) { Ok(()) } else { self.load(q) }
     }
     /// the query under one join memory budget
     fn run(&mut self, q: &Query, budget: usize) -> Out {
@@ -558,7 +587,7 @@ fn emit_sql(w: &mut CaseWriter, sut: &mut Sut, q: &Query, stream: &str) {
     for o in &outs { if let Out::Bad(m) = o { eprintln!("c17: unexpected result: {} on {}", m, q.line()); } }
     let all_same = outs.iter().all(|o| *o == outs[0]);
     let shown: Vec<String> = if all_same { vec![outs[0].coq()] } else { outs.iter().map(|o| o.coq()).collect() };
-    let term = format!("Sql {} {} {} [{}]", q.coq(), cbool(q.qual), cbool(all_same), shown.join("; "));
+    let term = format!("Sql {} {} {} {} [{}]", q.coq(), cbool(q.qual), idx_coq(&q.idx), cbool(all_same), shown.join("; "));
     let spec = query_spec(q);
     let has_null_or_dup = q.tabs.iter().any(|t| t.rows.iter().any(|r| r.iter().any(|v| v.is_null()))) || q.tabs.iter().any(|t| {
         (1..t.cols.len()).any(|c| { let mut vs: Vec<String> = t.rows.iter().map(|r| r[c].to_tok()).collect(); let n0 = vs.len(); vs.sort(); vs.dedup(); vs.len() < n0 })
@@ -571,7 +600,15 @@ fn emit_sql(w: &mut CaseWriter, sut: &mut Sut, q: &Query, stream: &str) {
     let mut lw = q.tabs[0].cols.len();
     for (k, (_, on)) in q.joins.iter().enumerate() { w.count(&format!("on:{}", on_shape(on, lw)), 1); lw += q.tabs[k + 1].cols.len(); }
     // which execution path of Database::query the plan leads to (by the shape of ON, see Model/JoinHw.v)
-    if q.tabs.len() == 2 {
+    for x in &q.idx { w.count(&format!("index:{}{}", if x.1 { "unique" } else { "non_unique" }, if x.2.len() > 1 { "_composite" } else { "_single" }), 1); }
+    if inl_plan(q).is_some() {
+        w.count("path:database.rs index nested loop join (IndexNestedLoopJoin plan)", 1);
+        let (_, rc) = inl_plan(q).unwrap();
+        let x = q.idx.iter().find(|x| x.0 == 1 && x.2.first() == Some(&rc)).unwrap();
+        w.count(&format!("inl_index:{}{}", if x.1 { "unique" } else { "non_unique" }, if x.2.len() > 1 { "_composite" } else { "_single" }), 1);
+        let dup = { let mut v: Vec<String> = q.tabs[1].rows.iter().map(|r| r[rc].to_tok()).filter(|t| t != "N").collect(); let n0 = v.len(); v.sort(); v.dedup(); v.len() < n0 };
+        if dup { w.count("inl:duplicate_inner_keys", 1); }
+    } else if q.tabs.len() == 2 {
         let on = if q.joins[0].0.has_on() { q.joins[0].1.clone() } else { None };
         let sh = on_shape(&on, q.tabs[0].cols.len());
         w.count(if sh == "equi" || sh == "equi_multi" || sh == "equi_plus_residual" { "path:database.rs hash path (StreamingHashJoin / GraceHashJoin plan)" } else { "path:database.rs nested loop (NestedLoopJoin plan)" }, 1);
@@ -797,7 +834,7 @@ fn gen_tables(rng: &mut Rng, p: Profile, thorough: bool) -> Vec<Table> {
     (0..ntabs).map(|k| gen_sql_table(rng, k, null_pct, float_keys, max_rows)).collect()
 }
 
-fn gen_query(rng: &mut Rng, p: Profile, tabs: &[Table]) -> Query {
+fn gen_query(rng: &mut Rng, p: Profile, tabs: &[Table], idx: &[Idx]) -> Query {
     let tabs: Vec<Table> = tabs.to_vec();
     let ntabs = tabs.len();
     let mut joins = vec![];
@@ -840,8 +877,33 @@ fn gen_query(rng: &mut Rng, p: Profile, tabs: &[Table]) -> Query {
             Some(s)
         }
     };
-    let qual = rng.chance(1, 2) && !(p == Profile::Clean && whr.is_some());
-    Query { tabs, joins, whr, sel, qual }
+    let mut joins = joins;
+    let mut whr = whr;
+    if !idx.is_empty() && ntabs == 2 && rng.chance(3, 5) {
+        // aim at the index: a single equality on a column of one of the indexes (mostly its leading column)
+        let x = rng.pick(idx).clone();
+        let rc = if rng.chance(3, 4) { x.2[0] } else { *rng.pick(&x.2) };
+        let rty = tabs[1].cols[rc];
+        let lw = tabs[0].cols.len();
+        let want = if p == Profile::Any && rty != ColTy::Text && rng.chance(1, 3) { if rty == ColTy::Int { ColTy::Float } else { ColTy::Int } } else { rty };
+        let mut lcs: Vec<usize> = (0..lw).filter(|j| tabs[0].cols[*j] == want).collect();
+        if lcs.len() > 1 && rng.chance(3, 4) { lcs.retain(|j| *j != 0); }
+        if let Some(lc) = lcs.get(rng.below(lcs.len().max(1) as u64) as usize).copied() {
+            let (a, b) = (Expr::Col(lc), Expr::Col(lw + rc));
+            let on = if rng.chance(1, 3) { Expr::cmp(CmpOp::Eq, b, a) } else { Expr::cmp(CmpOp::Eq, a, b) };
+            let jt = match p { Profile::Clean => *rng.pick(&[Jt::Inner, Jt::Left, Jt::Left]), Profile::Any => *rng.pick(&[Jt::Inner, Jt::Left, Jt::Right, Jt::Right, Jt::Full]) };
+            joins = vec![(jt, Some(on))];
+            if p == Profile::Clean || rng.chance(1, 2) { whr = None; }
+        }
+    }
+    let mut q = Query { tabs, joins, whr, sel, qual: false, idx: idx.to_vec() };
+    if p == Profile::Clean && inl_plan(&q).is_some() {
+        // keep the clean profile outside the finding classes of the index nested loop path
+        q.whr = None;
+        if q.joins[0].0 == Jt::Right { q.joins[0].0 = Jt::Left; }
+    }
+    q.qual = rng.chance(1, 2) && !(p == Profile::Clean && q.whr.is_some()) && !(!idx.is_empty() && q.whr.is_some());
+    q
 }
 
 /// the structured SQL stream: one fixed pair of tables with duplicate and NULL keys under every join type and
@@ -860,20 +922,30 @@ fn structured_sql() -> Vec<Query> {
     for jt in [Jt::Inner, Jt::Left, Jt::Right, Jt::Full] {
         for on in [eq(1, 4), eq(4, 1), Expr::cmp(CmpOp::Lt, c(1), c(4)), Expr::cmp(CmpOp::Ne, c(2), c(5)), Expr::or(eq(1, 4), Expr::is_null(false, c(1))),
                    Expr::and(eq(1, 4), Expr::cmp(CmpOp::Lt, c(2), c(5))), Expr::and(eq(1, 4), eq(2, 5)), Expr::cmp(CmpOp::Eq, Expr::int(1), Expr::int(1))] {
-            v.push(Query { tabs: vec![ta.clone(), tb.clone()], joins: vec![(jt, Some(on.clone()))], whr: None, sel: sel2.clone(), qual: true });
+            v.push(Query { tabs: vec![ta.clone(), tb.clone()], joins: vec![(jt, Some(on.clone()))], whr: None, sel: sel2.clone(), qual: true, idx: vec![] });
         }
-        v.push(Query { tabs: vec![ta.clone(), tb.clone()], joins: vec![(jt, Some(eq(1, 4)))], whr: Some(Expr::cmp(CmpOp::Gt, c(5), Expr::int(50))), sel: Some(vec![0, 3]), qual: false });
-        v.push(Query { tabs: vec![ta.clone(), tb.clone()], joins: vec![(jt, Some(eq(1, 4)))], whr: Some(Expr::is_null(false, c(3))), sel: Some(vec![3, 0]), qual: false });
-        v.push(Query { tabs: vec![ta.clone(), tb.clone()], joins: vec![(jt, Some(eq(1, 4)))], whr: None, sel: None, qual: false });
-        v.push(Query { tabs: vec![ta.clone(), tb.clone(), tc.clone()], joins: vec![(jt, Some(eq(1, 4))), (jt, Some(eq(4, 7)))], whr: None, sel: Some(vec![0, 3, 6]), qual: true });
-        v.push(Query { tabs: vec![ta.clone(), tb.clone(), tc.clone()], joins: vec![(jt, Some(Expr::cmp(CmpOp::Lt, c(1), c(4)))), (jt, Some(Expr::cmp(CmpOp::Le, c(4), c(7))))], whr: None, sel: Some(vec![0, 3, 6]), qual: true });
+        v.push(Query { tabs: vec![ta.clone(), tb.clone()], joins: vec![(jt, Some(eq(1, 4)))], whr: Some(Expr::cmp(CmpOp::Gt, c(5), Expr::int(50))), sel: Some(vec![0, 3]), qual: false, idx: vec![] });
+        v.push(Query { tabs: vec![ta.clone(), tb.clone()], joins: vec![(jt, Some(eq(1, 4)))], whr: Some(Expr::is_null(false, c(3))), sel: Some(vec![3, 0]), qual: false, idx: vec![] });
+        v.push(Query { tabs: vec![ta.clone(), tb.clone()], joins: vec![(jt, Some(eq(1, 4)))], whr: None, sel: None, qual: false, idx: vec![] });
+        v.push(Query { tabs: vec![ta.clone(), tb.clone(), tc.clone()], joins: vec![(jt, Some(eq(1, 4))), (jt, Some(eq(4, 7)))], whr: None, sel: Some(vec![0, 3, 6]), qual: true, idx: vec![] });
+        v.push(Query { tabs: vec![ta.clone(), tb.clone(), tc.clone()], joins: vec![(jt, Some(Expr::cmp(CmpOp::Lt, c(1), c(4)))), (jt, Some(Expr::cmp(CmpOp::Le, c(4), c(7))))], whr: None, sel: Some(vec![0, 3, 6]), qual: true, idx: vec![] });
+    }
+    // the index nested loop join: every index shape on tb (duplicate key 1, a NULL key), join column leading or not
+    for idx in [vec![(1usize, false, vec![1usize])], vec![(1, true, vec![1, 0])], vec![(1, false, vec![1, 2])], vec![(1, true, vec![0, 1])],
+                vec![(1, true, vec![0])], vec![(1, true, vec![0]), (1, true, vec![1, 0])]] {
+        for jt in [Jt::Inner, Jt::Left, Jt::Right, Jt::Full] {
+            v.push(Query { tabs: vec![ta.clone(), tb.clone()], joins: vec![(jt, Some(eq(1, 4)))], whr: None, sel: Some(vec![0, 3]), qual: false, idx: idx.clone() });
+            v.push(Query { tabs: vec![ta.clone(), tb.clone()], joins: vec![(jt, Some(eq(3, 1)))], whr: None, sel: Some(vec![3, 0, 5]), qual: true, idx: idx.clone() });
+        }
+        v.push(Query { tabs: vec![ta.clone(), tb.clone()], joins: vec![(Jt::Inner, Some(eq(1, 4)))], whr: Some(Expr::cmp(CmpOp::Gt, c(5), Expr::int(50))), sel: Some(vec![0, 3]), qual: false, idx: idx.clone() });
+        v.push(Query { tabs: vec![ta.clone(), tb.clone()], joins: vec![(Jt::Left, Some(Expr::and(eq(1, 4), Expr::cmp(CmpOp::Lt, c(2), c(5)))))], whr: None, sel: sel2.clone(), qual: false, idx: idx.clone() });
     }
     for jt in [Jt::Cross, Jt::Comma] {
-        v.push(Query { tabs: vec![ta.clone(), tb.clone()], joins: vec![(jt, None)], whr: None, sel: sel2.clone(), qual: false });
-        v.push(Query { tabs: vec![ta.clone(), tb.clone()], joins: vec![(jt, None)], whr: Some(eq(1, 4)), sel: Some(vec![0, 3]), qual: false });
-        v.push(Query { tabs: vec![ta.clone(), tb.clone()], joins: vec![(jt, None)], whr: Some(Expr::cmp(CmpOp::Lt, c(1), c(4))), sel: Some(vec![0, 3]), qual: true });
-        v.push(Query { tabs: vec![ta.clone(), tb.clone(), tc.clone()], joins: vec![(jt, None), (jt, None)], whr: None, sel: Some(vec![0, 3, 6]), qual: false });
-        v.push(Query { tabs: vec![ta.clone(), tb.clone(), tc.clone()], joins: vec![(jt, None), (jt, None)], whr: Some(Expr::and(eq(1, 4), eq(4, 7))), sel: Some(vec![0, 3, 6]), qual: false });
+        v.push(Query { tabs: vec![ta.clone(), tb.clone()], joins: vec![(jt, None)], whr: None, sel: sel2.clone(), qual: false, idx: vec![] });
+        v.push(Query { tabs: vec![ta.clone(), tb.clone()], joins: vec![(jt, None)], whr: Some(eq(1, 4)), sel: Some(vec![0, 3]), qual: false, idx: vec![] });
+        v.push(Query { tabs: vec![ta.clone(), tb.clone()], joins: vec![(jt, None)], whr: Some(Expr::cmp(CmpOp::Lt, c(1), c(4))), sel: Some(vec![0, 3]), qual: true, idx: vec![] });
+        v.push(Query { tabs: vec![ta.clone(), tb.clone(), tc.clone()], joins: vec![(jt, None), (jt, None)], whr: None, sel: Some(vec![0, 3, 6]), qual: false, idx: vec![] });
+        v.push(Query { tabs: vec![ta.clone(), tb.clone(), tc.clone()], joins: vec![(jt, None), (jt, None)], whr: Some(Expr::and(eq(1, 4), eq(4, 7))), sel: Some(vec![0, 3, 6]), qual: false, idx: vec![] });
     }
     v
 }
@@ -905,8 +977,9 @@ fn gen(a: &Args) {
     for k in 0..n_sets {
         let p = if k % 5 == 4 { Profile::Any } else { Profile::Clean };
         let tabs = gen_tables(&mut rng, p, a.thorough());
+        let idx = gen_indexes(&mut rng, &tabs);
         for _ in 0..per_set {
-            let q = gen_query(&mut rng, p, &tabs);
+            let q = gen_query(&mut rng, p, &tabs, &idx);
             emit_sql(&mut w, &mut sut, &q, if p == Profile::Clean { "clean" } else { "any" });
         }
     }
@@ -918,7 +991,59 @@ fn gen(a: &Args) {
 // ================================================================== search: oracle only
 /// rough tag of the recorded finding classes (search mode only; the authoritative classification is
 /// known_class in coq/Corr/C17.v)
+/// (left column, right column relative to tb) when the planner runs the query as an index nested loop join
+/// (src/sql/planner/convert.rs try_index_nested_loop_join; mirrors Model/JoinInl.v inl_plan)
+fn inl_plan(q: &Query) -> Option<(usize, usize)> {
+    if q.tabs.len() != 2 { return None; }
+    let (jt, on) = &q.joins[0];
+    if !matches!(jt, Jt::Inner | Jt::Left | Jt::Right) { return None; }
+    let lw = q.tabs[0].cols.len();
+    if let Some(Expr::Cmp(CmpOp::Eq, a, b)) = on {
+        if let (Expr::Col(i), Expr::Col(j)) = (&**a, &**b) {
+            let (lc, rc) = if *i < lw && *j >= lw { (*i, *j - lw) } else if *j < lw && *i >= lw { (*j, *i - lw) } else { return None };
+            if q.idx.iter().any(|x| x.0 == 1 && x.2.first() == Some(&rc)) { return Some((lc, rc)); }
+        }
+    }
+    None
+}
+
+/// secondary indexes on the inner table tb of a two-table set: single-column non-unique, single-column UNIQUE
+/// (on the identity column), composite non-unique, composite UNIQUE with the join column first / second
+fn gen_indexes(rng: &mut Rng, tabs: &[Table]) -> Vec<Idx> {
+    if tabs.len() != 2 || !rng.chance(1, 2) { return vec![]; }
+    let nc = tabs[1].cols.len();
+    let mut out: Vec<Idx> = vec![];
+    for _ in 0..(1 + rng.below(2)) {
+        let c = 1 + rng.below(nc as u64 - 1) as usize;
+        let c2 = { let mut d = 1 + rng.below(nc as u64 - 1) as usize; if d == c { d = 0; } d };
+        let x: Idx = match rng.below(8) {
+            0 | 1 => (1, false, vec![c]),
+            2 => (1, true, vec![0]),
+            3 => (1, false, vec![c, c2]),
+            4 | 5 | 6 => (1, true, vec![c, 0]),
+            _ => (1, true, vec![0, c]),
+        };
+        if !out.contains(&x) { out.push(x); }
+    }
+    out
+}
+
 fn rough_class_sql(q: &Query) -> u32 {
+    if q.tabs.len() == 2 && matches!(q.joins[0].0, Jt::Inner | Jt::Left | Jt::Right) {
+        let lw = q.tabs[0].cols.len();
+        if let Some(Expr::Cmp(CmpOp::Eq, a, b)) = &q.joins[0].1 { if let (Expr::Col(i), Expr::Col(j)) = (&**a, &**b) {
+            if *i >= lw && *j >= lw && q.idx.iter().any(|x| x.0 == 1 && x.2.first() == Some(&(*j - lw))) { return 16; }
+        } }
+    }
+    if let Some((lc, rc)) = inl_plan(q) {
+        if q.whr.is_some() { return 11; }
+        if q.joins[0].0 == Jt::Right { return 12; }
+        let x = q.idx.iter().find(|x| x.0 == 1 && x.2.first() == Some(&rc)).unwrap();
+        if x.1 && q.tabs[1].rows.iter().any(|r| x.2.iter().any(|c| r[*c].is_null())) { return 15; }
+        let (lt, rt) = (q.tabs[0].cols[lc], q.tabs[1].cols[rc]);
+        if lt != rt { return 14; }
+        return 0;
+    }
     let lw0 = q.tabs[0].cols.len();
     let outer = |j: &Jt| j.left_outer() || j.right_outer();
     if q.tabs.len() == 2 { return 0; }       // two-table joins: every former class is repaired in /repo
@@ -947,6 +1072,7 @@ fn search(a: &Args) {
     let mut tried: u64 = 0;
     let budget = a.budget.min(30_000);
     let mut cur_tabs: Vec<Table> = vec![];
+    let mut cur_idx: Vec<Idx> = vec![];
     while tried < budget {
         tried += 1;
         if tried % 2 == 0 {
@@ -958,8 +1084,8 @@ fn search(a: &Args) {
             if !ok && fails.len() < 80 { fails.push(format!("{} #k={}", c.line(), if exec_mixed_equal(&c) { 1 } else { 0 })); }
         } else {
             let p = if (tried / 16) % 2 == 0 { Profile::Clean } else { Profile::Any };
-            if tried % 16 == 1 || cur_tabs.is_empty() { cur_tabs = gen_tables(&mut rng, p, true); }
-            let q = gen_query(&mut rng, p, &cur_tabs);
+            if tried % 16 == 1 || cur_tabs.is_empty() { cur_tabs = gen_tables(&mut rng, p, true); cur_idx = gen_indexes(&mut rng, &cur_tabs); }
+            let q = gen_query(&mut rng, p, &cur_tabs, &cur_idx);
             let Some(spec) = query_spec(&q) else { continue };
             let outs = sut.run_all(&q);
             let ok = outs.iter().all(|o| matches!(o, Out::Rows(r) if bag_eq(r, &spec)));
